@@ -504,7 +504,7 @@ class Transaction:
                     f"{method} requires a name or RRset as the first argument"
                 )
             self._raise_if_not_empty(method, args)
-            if rdataset:
+            if rdataset is not None:
                 if rdataset.rdclass != self.manager.get_class():
                     raise ValueError(f"{method} has objects of wrong RdataClass")
                 existing = self._get_rdataset(name, rdataset.rdtype, rdataset.covers)
@@ -520,7 +520,7 @@ class Transaction:
                         )
                     else:
                         self._checked_put_rdataset(name, rdataset)
-                elif exact:
+                elif exact and len(rdataset) > 0:
                     raise DeleteNotExact(f"{method}: missing rdataset")
             else:
                 if exact and not self._name_exists(name):
